@@ -144,6 +144,10 @@ def main():
             c["text"] = c["text"] + " A slice made with a non-zero length is filled by index or copy and is not appended to while its made elements are never stored into (E15.append-after-sized-make)."
         if pid in {"C02","C18","C09","C10"}:
             c["text"] = c["text"] + " A parser started at a position inside the file is given the file's bytes, or a decoded value only under a guard that its length equals the byte length of the quoted source (E6.decoded-text-positions; two known findings)."
+        if pid in {"C17","C04"}:
+            c["text"] = c["text"] + " No Copy method sorts, and none copies elements under a condition other than a nil test (E5.copy-order, E5.copy-filter)."
+        if pid == "C01":
+            c["text"] = c["text"] + " A pointer parameter is as optional as what an in-module caller hands it (an optional field passed on unchecked keeps its obligation inside the callee); index goals over locals re-assigned under a test are decided path-sensitively (weakest precondition over every CFG path)."
         if pid in {"C01","C17"}:
             c["text"] = c["text"] + " No == / != between two interface values whose interface has a non-comparable implementer in the module (E4.P6)."
         if pid in {"C09","C10","C12","C13","C14"}:
